@@ -122,6 +122,49 @@ type chanState struct {
 	n      int // buffered elements
 	closed bool
 	buf    any // *ring[T]
+	// happens-before bookkeeping
+	itemClk  []vclock // clock of the sender of each buffered element
+	recvClk  []vclock // clock of the i-th completed receive (capacity edge)
+	sends    int
+	closeClk vclock
+}
+
+// hbPush / hbPop are called by the goroutine that completes a buffered send / receive.
+func (c *chanState) hbPush(e *Exec) {
+	h := e.hb
+	if h == nil {
+		return
+	}
+	g := e.cur.id
+	if c.sends >= c.cap && c.sends-c.cap < len(c.recvClk) {
+		h.acquire(g, c.recvClk[c.sends-c.cap])
+	}
+	c.sends++
+	c.itemClk = append(c.itemClk, h.release(g))
+}
+
+func (c *chanState) hbPop(e *Exec) {
+	h := e.hb
+	if h == nil {
+		return
+	}
+	g := e.cur.id
+	if len(c.itemClk) > 0 {
+		h.acquire(g, c.itemClk[0])
+		c.itemClk = c.itemClk[1:]
+	}
+	c.recvClk = append(c.recvClk, h.release(g))
+}
+
+// hbRendezvous orders an unbuffered send and its receive in both directions.
+func (e *Exec) hbRendezvous(sender, receiver *G) {
+	h := e.hb
+	if h == nil {
+		return
+	}
+	cs, cr := h.release(sender.id), h.release(receiver.id)
+	h.acquire(receiver.id, cs)
+	h.acquire(sender.id, cr)
 }
 
 type ring[T any] struct{ items []T }
@@ -132,12 +175,14 @@ type MutexState struct {
 	epoch   uint32
 	held    bool
 	readers int
+	hbvc    vclock
 }
 
 type WGState struct {
 	id    int
 	epoch uint32
 	n     int
+	hbvc  vclock
 }
 
 // PanicRec describes a panic captured in a managed goroutine.
@@ -201,6 +246,7 @@ type Exec struct {
 	enScratch  []*G
 	lastKey    unsafe.Pointer
 	lastState  *chanState
+	hb         *hbState
 	epoch      uint32
 	keepStacks bool
 	Steps      int
@@ -311,6 +357,9 @@ func Go(site string, f func()) {
 	g.arr = e.arrSeq
 	e.arrSeq++
 	e.gs = append(e.gs, g)
+	if e.hb != nil {
+		e.hb.fork(e.cur.id, g.id)
+	}
 	e.wg.Add(1)
 	go g.run(e, f)
 }
@@ -556,6 +605,7 @@ func (e *Exec) applySend(g *G, c *chanState, val any) {
 	}
 	r := e.partner(g, c, false)
 	e.resolvePartner(r, c, false, val)
+	e.hbRendezvous(g, r)
 	g.res.direct = true
 }
 
@@ -568,10 +618,14 @@ func (e *Exec) applyRecv(g *G, c *chanState) {
 	if c.closed {
 		g.res.direct = true
 		g.res.val, g.res.ok = nil, false
+		if e.hb != nil {
+			e.hb.acquire(g.id, c.closeClk)
+		}
 		return
 	}
 	s := e.partner(g, c, true)
 	v := e.resolvePartner(s, c, true, nil)
+	e.hbRendezvous(s, g)
 	g.res.val, g.res.ok, g.res.direct = v, true, true
 }
 
@@ -584,9 +638,15 @@ func (e *Exec) apply(g *G) {
 	switch o.kind {
 	case KLock:
 		o.mu.held = true
+		if e.hb != nil {
+			e.hb.acquire(g.id, o.mu.hbvc)
+		}
 		e.note(g, KLock, o.mu.id)
 	case KRLock:
 		o.mu.readers++
+		if e.hb != nil {
+			e.hb.acquire(g.id, o.mu.hbvc)
+		}
 		e.note(g, KRLock, o.mu.id)
 	case KSend:
 		e.applySend(g, o.ch, o.val)
@@ -632,18 +692,30 @@ func (e *Exec) apply(g *G) {
 			return
 		}
 		o.ch.closed = true
+		if e.hb != nil {
+			o.ch.closeClk = e.hb.release(g.id)
+		}
 		e.note(g, KClose, o.ch.id)
 	case KSemAcq:
 		o.sem.n--
+		if e.hb != nil {
+			e.hb.acquire(g.id, o.sem.hbvc)
+		}
 		e.note(g, KSemAcq, o.sem.id)
 	case KSemRel:
 		o.sem.n++
+		if e.hb != nil {
+			o.sem.hbvc = o.sem.hbvc.join(e.hb.release(g.id))
+		}
 		e.note(g, KSemRel, o.sem.id)
 	case KRead, KWrite, KConnClose:
 		e.note(g, o.kind, o.st.id)
 	case KAtomic:
 		e.note(g, KAtomic, o.obj)
 	case KWgWait:
+		if e.hb != nil {
+			e.hb.acquire(g.id, o.wg.hbvc)
+		}
 		e.note(g, KWgWait, o.wg.id)
 	case KIdle, KYield:
 		e.note(g, o.kind, 0)
@@ -829,8 +901,9 @@ func Yield() {
 
 // Sem is a counting semaphore owned by the scheduler (harness gates).
 type Sem struct {
-	id int
-	n  int
+	id   int
+	n    int
+	hbvc vclock
 }
 
 func NewSem(n int) *Sem {
@@ -897,6 +970,9 @@ func MutexTryLock(m *MutexState) (handled, ok bool) {
 		return true, false
 	}
 	m.held = true
+	if e.hb != nil {
+		e.hb.acquire(e.cur.id, m.hbvc)
+	}
 	e.note(e.cur, KLock, m.id)
 	return true, true
 }
@@ -914,6 +990,9 @@ func MutexUnlock(m *MutexState) bool {
 		panic("sync: unlock of unlocked mutex")
 	}
 	m.held = false
+	if e.hb != nil {
+		m.hbvc = e.hb.release(e.cur.id)
+	}
 	e.note(e.cur, KExit, m.id)
 	return true
 }
@@ -941,6 +1020,9 @@ func MutexRUnlock(m *MutexState) bool {
 	}
 	m.check(e)
 	m.readers--
+	if e.hb != nil {
+		m.hbvc = m.hbvc.join(e.hb.release(e.cur.id))
+	}
 	return true
 }
 
@@ -956,6 +1038,9 @@ func WGAdd(w *WGState, d int) bool {
 		w.epoch, w.id, w.n = e.epoch, e.newObj(), 0
 	}
 	w.n += d
+	if e.hb != nil && d < 0 {
+		w.hbvc = w.hbvc.join(e.hb.release(e.cur.id))
+	}
 	return true
 }
 
@@ -975,12 +1060,13 @@ func WGWait(w *WGState) bool {
 }
 
 // AtomicPoint is called by the atomic shim before every atomic operation.
-func AtomicPoint(addr unsafe.Pointer) {
+func AtomicPoint(addr unsafe.Pointer, size uintptr, write bool) {
 	e := ex
 	if e == nil || e.dead {
 		return
 	}
 	e.point(op{kind: KAtomic, obj: -1})
+	e.hbAtomic(addr, size, write)
 }
 
 // ---------------------------------------------------------------------------
@@ -1031,6 +1117,7 @@ func Send[T any](ch chan<- T, v T) {
 		r := st.buf.(*ring[T])
 		r.items = append(r.items, v)
 		st.n++
+		st.hbPush(e)
 		return
 	}
 	o := op{kind: KSend, ch: st}
@@ -1045,6 +1132,7 @@ func Send[T any](ch chan<- T, v T) {
 		r := st.buf.(*ring[T])
 		r.items = append(r.items, v)
 		st.n++
+		st.hbPush(e)
 	}
 }
 
@@ -1058,6 +1146,9 @@ func recvFinish[T any](g *G, st *chanState) (T, bool) {
 	r.items[0] = z
 	r.items = r.items[1:]
 	st.n--
+	if ex != nil {
+		st.hbPop(ex)
+	}
 	return v, true
 }
 
@@ -1150,6 +1241,9 @@ func AddSend[T any](s *Sel, ch chan<- T, v T) {
 				r := st.buf.(*ring[T])
 				r.items = append(r.items, v)
 				st.n++
+				if ex != nil {
+					st.hbPush(ex)
+				}
 			}
 		}
 	}
@@ -1221,6 +1315,7 @@ func Got2[T any](s *Sel, ch <-chan T) (T, bool) {
 	r.items[0] = z
 	r.items = r.items[1:]
 	st.n--
+	st.hbPop(e)
 	return v, true
 }
 
